@@ -42,7 +42,7 @@ if ! (cd "$W/harness" && CARGO_TARGET_DIR="$W/ht" cargo build --release --quiet 
   echo "EVAL $NAME harness_build=FAILED"; tail -20 "$W/build.log"; exit 2
 fi
 CHK=""
-case " $IDS " in *" C03 "*) (cd "$W/harness" && CARGO_TARGET_DIR="$W/ht" cargo build --profile checked --quiet >>"$W/build.log" 2>&1) && CHK="$W/ht/checked/ppp-verif" ;; esac
+case " $IDS " in *" C03 "*|*" C07 "*|*" C09 "*|*" C10 "*|*" C13 "*|*" C20 "*) (cd "$W/harness" && CARGO_TARGET_DIR="$W/ht" cargo build --profile checked --quiet >>"$W/build.log" 2>&1) && CHK="$W/ht/checked/ppp-verif" ;; esac
 CAUGHT=""; MISSED=""
 # the change's own property check runs at the full quick budget; the other 19 at a fraction of it (MUT_OTHERS_SCALE,
 # default 0.1: the cross table then shows what one tenth of the random stages already reports; exhaustive stages are
@@ -54,6 +54,12 @@ for ID in $IDS; do
   if [ "$ID" = C03 ] && [ -n "$CHK" ] && [ $rc = 0 ]; then
     out=$(VERIF_SCALE="$SCALE" VERIF_DIR="$W/vd" timeout 1500 "$CHK" "$ID" --tier "${MUT_TIER:-quick}" --no-evidence 2>/dev/null); rc=$?
   fi
+  case "$ID" in C07|C09|C10|C13|C20)
+    if [ -n "$CHK" ] && [ $rc = 0 ]; then
+      CS=0.25; [ "$ID" != "$OWN" ] && CS=0.025
+      out=$(VERIF_SCALE="$CS" VERIF_DIR="$W/vd" timeout 1500 "$CHK" "$ID" --tier "${MUT_TIER:-quick}" --no-evidence 2>/dev/null); rc=$?
+    fi ;;
+  esac
   case $rc in
     0) MISSED="$MISSED $ID" ;;
     1) CAUGHT="$CAUGHT $ID"; echo "EVAL $NAME caught_by=$ID $(echo "$out" | grep -m1 'sig=' | sed 's/^ *//')" ;;
